@@ -39,9 +39,11 @@ let observe id step (logs : lg array) =
       (if List.for_all (fun r -> sha256_str r.er_data = r.er_commit) l.l_recs then 1 else 0)
       (root_hex stored) (List.length stored)) logs
 
+let server_mode = ref (fun (_ : string) -> ())
 let run_line (line : string) : unit =
   let toks = String.split_on_char ' ' line |> List.filter (fun s -> s <> "") in
   match toks with
+  | _ :: _ :: ("init" | "req") :: _ -> !server_mode line
   | _ :: id :: rest ->
     let ops = match kv rest "ops" with Some o -> split_on '|' o | None -> [] in
     let logs : lg array = Array.make 3 { l_recs = []; l_tree = [] } in
